@@ -2367,6 +2367,11 @@ impl DnsIncoming {
     }
 
     fn read_char_string(&mut self) -> Result<String> {
+        if self.offset >= self.data.len() {
+            return Err(e_fmt!(
+                "DNS Incoming: not enough data to read a character string"
+            ));
+        }
         let length = self.data[self.offset];
         self.offset += 1;
         self.read_string(length as usize)
